@@ -15,6 +15,7 @@ floating point to the encoding precision; the rejection method is run on every t
 Test/g0 table (bounds and event only)."""
 import concurrent.futures as cf
 import json
+import math
 import os
 import random
 import shutil
@@ -330,6 +331,26 @@ def encode_and_match(ck, dss, cases, root, wd):
         ds["P"] = [dec_of(v) for v in outs]
         ds["expect"] = expect
         good.append(ds)
+    # the E_step word of the header is informative (the grid is E_min .. E_max in nb_samples points): the format example of
+    # documentation/gA_process.rst spells it rounded (0.00302 for 3.02/999).  Every third table gets such a header - the step
+    # rounded UP to three significant digits, so that a grid built from it would leave [E_min, E_max].
+    nround = 0
+    for k, ds in enumerate(d for d in good if d["family"] != 3):
+        if k % 3 != 1:
+            continue
+        path = os.path.join(root, "data", "dbd_gA", ds["version"], ds["nuclide"], ds["process"], "tab_ocdf.data")
+        txt = open(path).read().split("\n")
+        for i, ln in enumerate(txt):
+            w = ln.split()
+            if len(w) == 5 and w[0] == "CumulativeProbability":
+                st = float(w[3])
+                q = 10 ** (math.floor(math.log10(st)) - 2)
+                w[3] = "%.6g" % (math.ceil(st / q + 0.5) * q)
+                txt[i] = " ".join(w)
+                nround += 1
+                break
+        open(path, "w").write("\n".join(txt))
+    ck.set("tables_with_rounded_step_in_header", nround)
     return good, codec_lists
 
 
